@@ -120,6 +120,7 @@ class SchedSim:
         self.enabled = set(case.get("props", []))
         self.swaps_in_treat = 0
         self.in_treat = False
+        self.in_job = False
         self.stats = {"jobs": 0, "frames": 0, "acc": 0, "rej": 0, "zero_swaps": 0,
                       "overlap_steps": 0, "max_inflight": 0}
         self.sig = []            # completion-order signature
@@ -251,6 +252,7 @@ class SchedSim:
         for m in self.monitors:
             m.pre_job(jid, job)
         fut = SimFuture(jid)
+        self.in_job = True
         try:
             out = self.run_md(job)
         except StopRun:
@@ -260,6 +262,8 @@ class SchedSim:
             fut.exc = exc
             k.log(ev="job_raised", jid=jid, exc=type(exc).__name__, msg=str(exc)[:200],
                   tb=_short_tb(exc))
+        finally:
+            self.in_job = False
         if out is not None:
             frames = int(sum(out.get("trial_len", []) or [0]))
             self.stats["frames"] += frames
@@ -382,7 +386,7 @@ def _short_tb(exc):
 # ======================================================================================
 # incarnation (child process)
 # ======================================================================================
-def _child(case, inc, spec, rundir, decisions, outpath, monitor_factory):
+def _child(case, inc, spec, rundir, decisions, outpath, monitor_factory, pre_install=None):
     fd = os.open(outpath, os.O_WRONLY | os.O_CREAT | os.O_TRUNC, 0o644)
     err = os.open(outpath + ".stderr", os.O_WRONLY | os.O_CREAT | os.O_TRUNC, 0o644)
     os.dup2(err, 2)
@@ -399,7 +403,8 @@ def _child(case, inc, spec, rundir, decisions, outpath, monitor_factory):
                "violations": sim.violations, "stats": sim.stats, "completed": sim.completed,
                "consumed": sim.consumed, "sim_time": k.now, "ksteps": k.steps,
                "sig": hash64(tuple(sim.sig)), "nsig": len(sim.sig),
-               "mon": {type(m).__name__: m.summary() for m in monitors}}
+               "mon": {type(m).__name__: m.summary() for m in monitors},
+               "extra": getattr(sim, "extra_end", {})}
         os.write(fd, (json.dumps(end, default=str) + "\n").encode())
         os.close(fd)
         os._exit(code)
@@ -407,6 +412,8 @@ def _child(case, inc, spec, rundir, decisions, outpath, monitor_factory):
     sim.finish = finish
     try:
         sim.install()
+        if pre_install is not None:
+            pre_install(sim, scratch=os.path.dirname(outpath))
         from infretis.setup import setup_config
         from infretis.scheduler import scheduler
         config = setup_config(spec.get("inp", "infretis.toml"))
@@ -435,14 +442,15 @@ def _child(case, inc, spec, rundir, decisions, outpath, monitor_factory):
     finish(code)
 
 
-def run_incarnation(case, inc, spec, rundir, decisions, scratch, monitor_factory, timeout=240):
+def run_incarnation(case, inc, spec, rundir, decisions, scratch, monitor_factory, timeout=240,
+                    pre_install=None):
     outpath = os.path.join(scratch, f"inc{inc}.jsonl")
     sys.stdout.flush()
     sys.stderr.flush()
     pid = os.fork()
     if pid == 0:
         try:
-            _child(case, inc, spec, rundir, decisions, outpath, monitor_factory)
+            _child(case, inc, spec, rundir, decisions, outpath, monitor_factory, pre_install)
         finally:
             os._exit(99)
     t0 = _realtime.time()
@@ -498,7 +506,8 @@ def set_steps(path, steps):
         tomli_w.dump(cfg, fh)
 
 
-def run_case(case, monitor_factory, history_checks=None, keep_dir=False, scratch_base=None):
+def run_case(case, monitor_factory, history_checks=None, keep_dir=False, scratch_base=None,
+             prebuilt=None, first_inc=0, pre_install=None):
     """Execute the history described by case['scn']['plan'].
 
     Returns dict(violations, events, trace, probes, faults, stats, digest, incs).
@@ -508,13 +517,18 @@ def run_case(case, monitor_factory, history_checks=None, keep_dir=False, scratch
     base = scratch_base or scratch_root()
     root = os.path.join(base, f"run-{case['seed']}-{os.getpid()}-{hash64(_realtime.time_ns()) % 10**6}")
     rundir = os.path.join(root, "w")
-    os.makedirs(rundir)
+    if prebuilt is None:
+        os.makedirs(rundir)
+    else:
+        os.makedirs(root)
+        os.rename(prebuilt, rundir)
     res = {"violations": [], "events": [], "trace": [], "probes": {}, "faults": {},
            "stats": {}, "incs": [], "sim_time": 0.0, "ksteps": 0, "sigs": [], "mon": {}}
     decisions = case.get("decisions")
     try:
-        SC.build_rundir(scn, rundir)
-        for inc, spec in enumerate(scn["plan"]):
+        if prebuilt is None:
+            SC.build_rundir(scn, rundir)
+        for inc, spec in enumerate(scn["plan"], first_inc):
             inp = spec.get("inp", "infretis.toml" if inc == 0 else "restart.toml")
             if inc > 0 and inp == "restart.toml" and not os.path.isfile(os.path.join(rundir, inp)):
                 inp = "infretis.toml"     # nothing was ever completed: the user starts over
@@ -527,7 +541,7 @@ def run_case(case, monitor_factory, history_checks=None, keep_dir=False, scratch
                         res["events"].append({"ev": "user_edit_failed", "inc": inc,
                                               "exc": type(exc).__name__})
             code, events, end = run_incarnation(case, inc, spec, rundir, decisions, root,
-                                                monitor_factory)
+                                                monitor_factory, pre_install=pre_install)
             for ev in events:
                 ev["inc"] = inc
             res["events"].extend(events)
@@ -545,6 +559,7 @@ def run_case(case, monitor_factory, history_checks=None, keep_dir=False, scratch
             res["ksteps"] += end["ksteps"]
             res["sigs"].append(end["sig"])
             res["mon"][inc] = end.get("mon", {})
+            res["extra_last"] = end.get("extra", {})
             res["incs"].append({"inc": inc, "exit": code, "completed": end["completed"],
                                 "consumed": end["consumed"], "inp": inp})
             if history_checks is not None:
